@@ -131,13 +131,19 @@ def get_type_graph(t: type) -> graphlib.TopologicalSorter[TypeNode]:
             #   i.e., we may get `str` or `datetime` any number of times,
             #   that's not cyclic, so we can just add it to the graph.
             is_visited = child in visited or unwrapped in visited
-            is_subscripted = inspection.issubscriptedgeneric(unwrapped)
+            is_subscripted = inspection.issubscriptedgeneric(
+                unwrapped
+            ) or inspection.isuniontype(unwrapped)
             is_stdlib = inspection.isstdlibtype(unwrapped)
             can_be_cyclic = is_subscripted or is_stdlib is False
             # We detected a cyclic type,
             #   wrap in a ForwardRef and don't add it to the stack
             #   This will terminate this edge to prevent infinite cycles.
-            if is_visited and can_be_cyclic:
+            if is_visited and is_subscripted:
+                # No reference can name a subscripted generic or a union:
+                #   defer the annotation itself.
+                node = TypeNode(child, unwrapped, var=var, cyclic=True)
+            elif is_visited and can_be_cyclic:
                 qualname = inspection.qualname(child)
                 *rest, refname = qualname.split(".", maxsplit=1)
                 is_argument = var is not None
@@ -180,7 +186,7 @@ class TypeNode:
     """The unwrapped type annotation for this node."""
     var: str | None = None
     """The variable or parameter name associated to the type annotation for this node."""
-    cyclic: bool = dataclasses.field(default=False, hash=False, compare=False)
+    cyclic: bool = False
     """Whether this type annotation is cyclic."""
 
     def __post_init__(self):
